@@ -107,3 +107,18 @@ def ic_cpp(c):
     """C++ spelling of an instantiated class: ns::Name<args> (template) or ns::Name"""
     return ('::'.join(ns_chain(c.parent)) + ('::' if len(ns_chain(c.parent)) > 0 else '')
             + (c.original.name + '<' + ', '.join([tn_cpp(i) for i in c.instantiations]) + '>' if c.original.template else c.original.name))
+
+
+@spec(rec=True, ret='str', reads=TN)
+def iname_suffix(insts, k):
+    """instantiated names of insts[:k], each with its first character capitalised (the rest untouched)"""
+    if k <= 0:
+        return ''
+    return iname_suffix(insts, k - 1) + tn_iname(insts[k - 1])[0].capitalize() + tn_iname(insts[k - 1])[1:]
+
+
+@spec()
+def idecl_cpp(d):
+    """C++ spelling of an instantiated forward declaration: ns::Name<qualified args>"""
+    return ('::'.join(ns_chain(d.parent)) + ('::' if len(ns_chain(d.parent)) > 0 else '')
+            + d.original.name + '<' + ','.join(['::'.join(i.namespaces + [i.name]) for i in d.instantiations]) + '>')
